@@ -299,6 +299,16 @@ class Check:
     # ---------------------------------------------------------------- model checking of the spec
     def mc(self, module, cfg, expect_violation=False, workers=NCPU, timeout=3000, simulate=None, note="", extra=(),
            env=None):
+        # thorough tier: a deeper configuration of the same machine, when one is provided (<name>_thorough.cfg), is
+        # checked IN ADDITION to the standard one (behaviour emission for replay keeps the standard configuration)
+        deep = cfg[:-4] + "_thorough.cfg"
+        if self.tier == "thorough" and not expect_violation and not simulate and os.path.exists(
+                os.path.join(self.dir, deep)) and not getattr(self, "_in_deep", False):
+            self._in_deep = True
+            try:
+                self.mc(module, deep, workers=NCPU, timeout=7200, note="thorough tier: deeper constants; " + note, env=env)
+            finally:
+                self._in_deep = False
         r = run_tlc(self.dir, module, cfg=os.path.join(self.dir, cfg), workers=workers, timeout=timeout,
                     simulate=simulate, extra=extra, heap="12g", env=env)
         rec = {"module": module, "cfg": cfg, "generated": r["generated"], "distinct": r["distinct"],
